@@ -701,6 +701,12 @@ fn check_para<F: FontRepo>(idx: u64, acc: &mut Acc, case: &dyn Fn() -> Value, li
         if l.disc_break && l.replaced >= 2 {
             acc.count("break_at_discretionary_replacing_two_items");
         }
+        if (1..4).filter(|o| l.packed.total_stretch[*o] != 0).count() >= 2 || (1..4).filter(|o| l.packed.total_shrink[*o] != 0).count() >= 2 {
+            acc.count("line_with_two_different_infinite_orders");
+        }
+        if (1..4).filter(|o| l.packed.total_shrink[*o] != 0).count() >= 2 && l.packed.natural > l.width {
+            acc.count("shrinking_line_with_two_different_infinite_orders");
+        }
         if l.packed.total_stretch[1] == 0 && pp.left_skip.st_o == 1 && pp.left_skip.st != 0 {
             acc.count("fil_stretch_of_the_skips_cancels");
         }
@@ -792,9 +798,10 @@ fn check_para<F: FontRepo>(idx: u64, acc: &mut Acc, case: &dyn Fn() -> Value, li
             let ratio_ok = iden != 0 && inum * md as i128 == mn as i128 * iden;
             let order_ok = mn == 0 || b.glue_order as u8 == m.packed.set.order;
             if (!ratio_ok || !order_ok) && impl_lines[k] == m.items {
-                // the glue setting of a box is C15's subject, the statement of C12 does not mention it: recorded only
-                acc.class("note: glue set of a line differs from the hpack model");
-                acc.count("glue_set_differs_from_hpack_model");
+                // S3 "every line box has exactly the requested width": the box only has that width if its glue is set
+                // by natural width -> requested width at the highest non-zero order (TeX §658-659, §664-665)
+                problems.push(("post_line_break: glue set of a line differs from hpack (TeX §658-664)".into(), format!("line {k}: order {} ratio {mn}/{md} (natural {} -> {})", m.packed.set.order, m.packed.natural, m.width), format!("line {k}: order {:?} ratio {}/{}", b.glue_order, b.glue_ratio.num.0, b.glue_ratio.den.0)));
+                break 'o2;
             }
         }
     }
@@ -902,6 +909,32 @@ fn tweaks() -> Vec<Tweak> {
         Tweak { name: "leftskip=0pt plus 0fil minus 0fill (is zero_glue)", group: 0, f: |p, _| p.left_skip = Glue { stretch_order: GlueOrder::Fil, shrink_order: GlueOrder::Fill, ..Default::default() } },
         Tweak { name: "interlinepenalty=-151", group: 8, f: |p, _| p.inter_line_penalty = -151 },
         Tweak { name: "interlinepenalty=-149", group: 8, f: |p, _| p.inter_line_penalty = -149 },
+        // two different infinite orders in one line: the highest non-zero one sets the line (TeX §659 / §665)
+        Tweak {
+            name: "leftskip=0pt plus 1fil rightskip=0pt plus 1fill",
+            group: 0,
+            f: |p, _| {
+                p.left_skip = Glue { stretch: Scaled(PT), stretch_order: GlueOrder::Fil, ..Default::default() };
+                p.right_skip = Glue { stretch: Scaled(PT), stretch_order: GlueOrder::Fill, ..Default::default() };
+            },
+        },
+        Tweak { name: "rightskip=0pt plus 1fill (parfillskip plus 1fil)", group: 1, f: |p, _| p.right_skip = Glue { stretch: Scaled(PT), stretch_order: GlueOrder::Fill, ..Default::default() } },
+        Tweak {
+            name: "leftskip=0pt plus 1filll rightskip=0pt plus 1fil",
+            group: 0,
+            f: |p, _| {
+                p.left_skip = Glue { stretch: Scaled(PT), stretch_order: GlueOrder::Filll, ..Default::default() };
+                p.right_skip = Glue { stretch: Scaled(PT), stretch_order: GlueOrder::Fil, ..Default::default() };
+            },
+        },
+        Tweak {
+            name: "leftskip=0pt minus 1fill rightskip=0pt minus 1fil",
+            group: 0,
+            f: |p, _| {
+                p.left_skip = Glue { shrink: Scaled(PT), shrink_order: GlueOrder::Fill, ..Default::default() };
+                p.right_skip = Glue { shrink: Scaled(PT), shrink_order: GlueOrder::Fil, ..Default::default() };
+            },
+        },
     ]
 }
 
@@ -1514,7 +1547,7 @@ fn main() {
     ctx.assume("width/indent sequences follow \\parshape: line i uses entry min(i, len-1); an empty indent sequence means 0");
     ctx.assume("'no line begins with discardable material' is read as TeX §879 implements it: lines after the first; material carried from a discretionary's post-break list and the item at which the line itself is broken are exempt");
     ctx.assume("skip components times space factor/1000 stay below 2^30 sp (beyond that TeX's xn_over_d raises arith_error and the result is undefined)");
-    ctx.assume("the glue set of a line box is compared with an hpack model but only recorded (outcome class + counter), never judged: the statement does not mention it (C15); math, mark, insertion, adjust and whatsit nodes are not generated (HBox::pack / the breaker hit a documented todo!() on them; the statement quantifies over glue, penalty, kern items and discretionaries); glue items have GlueKind::Normal (no code in the anchored files distinguishes glue kinds, leaders are a TODO)");
+    ctx.assume("the glue set of a line box (order and ratio) is judged against an hpack model, as what makes the box have 'exactly the requested width'; math, mark, insertion, adjust and whatsit nodes are not generated (HBox::pack / the breaker hit a documented todo!() on them; the statement quantifies over glue, penalty, kern items and discretionaries); glue items have GlueKind::Normal (no code in the anchored files distinguishes glue kinds, leaders are a TODO)");
     ctx.assume("not stated by the property and therefore recorded as outcome classes only (mutations/C12/AUDIT.md): other item kinds in the list made from text, glue for a space before the first word, what break_line leaves in its in/out list argument, other vertical items between the lines, a zero penalty node, the inert item TeX leaves at a break (emptied discretionary, penalty, zero-width kern)");
     ctx.assume("hyphenation itself (which discretionaries are inserted) is C13/C14; here the list left by the hyphenation pass is the list that was broken, and it must still spell the words");
     ctx.assume("inter-line glue (baselineskip) is not compared: the property does not state it");
@@ -1759,6 +1792,8 @@ fn main() {
         ("accent_or_math_kern_followed_by_glue_in_broken_list", "the list holds an accent or math kern directly followed by glue (not a breakpoint, not removable)"),
         ("font_kern_followed_by_glue_in_broken_list", "the list holds a font kern directly followed by glue"),
         ("hbox_vbox_or_rule_in_broken_list", "the list holds an hbox, vbox or rule item"),
+        ("line_with_two_different_infinite_orders", "a line whose glue has non-zero totals at two different infinite orders (stretch or shrink)"),
+        ("shrinking_line_with_two_different_infinite_orders", "an over-long line whose shrink has non-zero totals at two different infinite orders"),
         ("characters_255_and_256", "text with the characters 255 (last sfcode entry) and 256 (first without one)"),
         ("penalty_sum_negative", "the penalties of §890 add up to a negative value"),
         ("penalty_sum_plus_one", "the penalties of §890 add up to +1"),
